@@ -9,7 +9,6 @@ mod emodel;
 mod gen;
 mod model;
 mod registry;
-mod report;
 mod runner;
 mod sut;
 
